@@ -2,4 +2,7 @@ APPENDS = {
     "rustzx-core/src/lib.rs": [
         "\n#[cfg(kani)]\n#[path = \"@VERIF@/kani/core/mod.rs\"]\nmod verif;\n"
     ],
+    "rustzx-core/src/zx/sound/ay.rs": ["kani/core/append_ay.rs"],
+    "rustzx-core/src/zx/controller.rs": ["kani/core/append_controller.rs"],
+    "rustzx-core/src/zx/joy/kempston.rs": ["kani/core/append_kempston.rs"],
 }
